@@ -62,6 +62,9 @@ B_STATES = [
     PREM + [["copy", "g", "h", {}]],
     PREM + [["move", "g/x", "x2"], ["delmeta", "/", "core.bib"]],
     PREM + [["mkgrp", "g/s"], ["set", "g/s/y", 3], ["meta", "g/s", "dir2"], ["meta", "g/s/y", "file2"]],
+    # a node wrapper kept over a move (plain HDF5: the handle follows the node), metadata written through it afterwards: no reopen in between
+    PREM + [["move", "g", "h"], ["meta", "h", "bib1"]],
+    PREM + [["move", "g", "h"], ["delmeta", "h", "core.dir"], ["meta", "h", "dir2"]],
 ]
 
 # ------------------------------------------------------------------ protocol enumeration (completeness of the method table)
